@@ -187,6 +187,57 @@ def full_line(case, gc, cap):
     ])
 
 
+def concrete_line(case):
+    """the block as the `concrete` driver mode reads it: metadata + layout name, nothing captured"""
+    div = case["div"]
+    v2 = 1 if (case["version"] is not None and case["version"] >= 2) else 0
+    rs = case["refscreen"] or ["p", 1.78, 0.0, 0.0, 1.0, 58.0]
+    zs = []
+    for z in case["zones"]:
+        if z[0] == "c":
+            zs.append("c " + encs([z[1], z[4], z[2], z[5], z[3], z[6]]))
+        else:
+            zs.append("p " + encs([z[3], z[4], z[1], z[2]]))
+    lock = "none" if case["lock"] is None else "nomax" if case["lock"][0] is None else enc(case["lock"][0])
+    h = {None: "n", "left": "l", "right": "r"}[case["edge"][0]]
+    v = {None: "n", "top": "t", "bottom": "b"}[case["edge"][1]]
+    return " ; ".join([
+        "concrete %s %s" % ("C" if case["cartesian"] else "P", case["layout"]), encs(case["position"]),
+        "none" if case["offset"] is None else encs(case["offset"]),
+        ("none none none %d" % v2) if div is None else "%s %s %s %d" % (enc(div[0]), opt(div[1]), opt(div[2]), v2),
+        "%s %s %s %s" % (enc(case["gain"]), enc(case["ogain"]), enc(1.0 if case["mute"] else 0.0), enc(case["diffuse"])),
+        "%d %d %s" % (1 if case["screenRef"] else 0, 1 if rs[0] == "p" else 0, encs(rs[1:])),
+        "%s %s" % (h, v), " , ".join(zs) if zs else "none", lock,
+    ])
+
+
+def work_concrete(job):
+    """job = (layout, seed, n): blocks with zero extent rendered by the real code (nothing captured) and described to
+    the Lean `renderConcreteCart` / `renderConcretePolarPoint` by their metadata only."""
+    layout, seed, n = job
+    rng = random.Random("c01-concrete/%s/%r" % (layout, seed))
+    res = {"layout": layout, "lines": [], "expect": [], "counts": {}}
+    gc, _lay = G.gain_calc(layout)
+    tries = 0
+    while len(res["lines"]) < n and tries < 20 * n:
+        tries += 1
+        case = G.gen_case(rng, layout, boundary=(tries % 3 == 0))
+        case["width"] = case["height"] = case["depth"] = 0.0
+        if not case["cartesian"]:
+            # the polar point class: distance >= 1 after the transforms (distance is preserved by them unless locked)
+            if case["lock"] is None or rng.random() < 0.7:
+                case["position"][2] = 1.0
+            if case["offset"] is not None:
+                case["offset"][2] = 0.0
+        r = G.run_real(case, gc)
+        if r[0] != "ok":
+            res["counts"]["concrete: rejected by design"] = res["counts"].get("concrete: rejected by design", 0) + 1
+            continue
+        res["lines"].append(concrete_line(case))
+        res["expect"].append((case, r[2].tolist(), r[3].tolist()))
+    return res
+
+
 def parse_pair(ans):
     if not ans.startswith("ok "):
         return None
@@ -416,6 +467,33 @@ def table_text():
             for row in pl:
                 rows.append("[" + ", ".join("(%d, %s, %s, %s)" % (idx, _q(c[0]), _q(c[1]), _q(c[2])) for idx, c in row) + "]")
             planes.append("[" + ",\n     ".join(rows) + "]")
+        gc_full = None
+        from ear.core.objectbased.gain_calc import GainCalc as _GC
+        from ear.common import PolarScreen as _PS
+
+        gc_full = _GC(full)
+
+        def rows(arr):
+            return "[" + ", ".join("[" + ", ".join(_q(v) for v in r) + "]" for r in arr) + "]"
+
+        zh = gc_full.zone_exclusion_handler
+        spk = np.column_stack([zh.positions, zh.azimuths, zh.elevations])
+        scr = full.screen
+        if scr is None:
+            screen = "none"
+        elif isinstance(scr, _PS):
+            screen = "some (true, [%s])" % ", ".join(_q(v) for v in [scr.aspectRatio, scr.centrePosition.azimuth,
+                                                                     scr.centrePosition.elevation, scr.centrePosition.distance,
+                                                                     scr.widthAzimuth])
+        else:
+            screen = "some (false, [%s])" % ", ".join(_q(v) for v in [scr.aspectRatio, scr.centrePosition.X,
+                                                                      scr.centrePosition.Y, scr.centrePosition.Z, scr.widthX])
+        assert list(gc_full.ego_channel_lock_handler.channel_priority) == list(gc_full.allo_channel_lock_handler.channel_priority)
+        out += [
+            "def %s_spk : List (List (Int × Nat)) := %s" % (ident, rows(spk)),
+            "def %s_allo : List (List (Int × Nat)) := %s" % (ident, rows(gc_full.allo_channel_positions)),
+            "def %s_norm : List (List (Int × Nat)) := %s" % (ident, rows(gc_full.ego_channel_lock_handler.channel_positions)),
+        ]
         out += [
             "def %s : LayoutTable where" % ident,
             '  name := "%s"' % name,
@@ -423,6 +501,12 @@ def table_text():
             "  isLfe := [%s]" % ", ".join("true" if b else "false" for b in full.is_lfe),
             "  groups := [\n    %s]" % groups,
             "  tree := [\n    %s]" % ",\n    ".join(planes),
+            "  spk := %s_spk" % ident,
+            "  allo := %s_allo" % ident,
+            "  normPos := %s_norm" % ident,
+            "  prio := [%s]" % ", ".join(str(int(x)) for x in gc_full.ego_channel_lock_handler.channel_priority),
+            "  hasU045 := %s" % ("true" if "U+045" in lay.channel_names else "false"),
+            "  screen := %s" % screen,
             "",
         ]
     out += ["def layouts : List LayoutTable := [%s]" % ", ".join(names), "", "end Earverif.Gen.C01", ""]
@@ -453,7 +537,8 @@ class NpProxy:
 
 class C01(Spec):
     pid = "C01"
-    lean_targets = ("Earverif.Gen.C01_Tables", "Earverif.Props.C01", "c01driver")
+    lean_targets = ("Earverif.Gen.C01_Tables", "Earverif.Gen.C05_Tables", "Earverif.Gen.C19_Tables", "Earverif.Props.C01",
+                    "c01driver")
     props_module = "Earverif.Props.C01"
     theorems = tuple(
         "Earverif.GainCalc." + t
@@ -469,6 +554,10 @@ class C01(Spec):
             "renderFull_allocentric_layouts", "divergePositions_length", "diverge_cart_in_cube", "interp_bounds",
             "amountSpread_range", "extentMod_range", "polarHandle_isPolarRow", "polarHandle_contract",
             "renderFull_power", "renderFull_polar", "alloExtent_nonneg", "alloExtent_unit", "alloExtent_unit_of_size",
+            # round 5: handlers and panners plugged in (renderConcrete)
+            "treeWF_of_TreeS", "allo_unit_power_distinct", "renderConcrete_cart_power", "tables_env_ok",
+            "renderConcrete_cart_power_layouts", "quadRoot_range", "pspHandle_contract", "polarPointPan_contract",
+            "renderConcrete_polar_point_partial", "tables_polar_ok", "renderConcrete_polar_point_partial_layouts",
         )
     )
     trusted_base = (
@@ -510,6 +599,17 @@ class C01(Spec):
 
         changed = common.write_if_changed(os.path.join(common.GEN, "C01_Tables.lean"), table_text())
         ctx.count("tables: Gen/C01_Tables.lean %s" % ("rewritten" if changed else "unchanged"))
+        # renderConcrete imports the C05 panner table and the C19 conversion table: refresh them with their owners'
+        # extractors (imported, not edited) so that a C01 run never proves or runs against stale tables
+        from . import c05, c19
+
+        for mod, name in ((c05, "C05_Tables.lean"), (c19, "C19_Tables.lean")):
+            before = None
+            path = os.path.join(common.GEN, name)
+            if os.path.exists(path):
+                before = open(path).read()
+            mod.SPEC.extract(ctx)
+            ctx.count("tables: Gen/%s %s" % (name, "unchanged" if before == open(path).read() else "rewritten"))
 
     # ---- plumbing
     def _jobs(self, ctx, n_per_layout, with_boundary, capture, chunks=1, real_layouts=0):
@@ -578,7 +678,40 @@ class C01(Spec):
             jobs = self._jobs(ctx, 1200, True, True, chunks=2, real_layouts=3)
             jobs += self._lattice_jobs(ctx, G.LAYOUTS, "rows", True, 4)
         self._run_jobs(ctx, jobs, driver, "render", nproc)
+        self._concrete(ctx, driver, nproc)
         self._sub_models(ctx, driver)
+
+    def _concrete(self, ctx, driver, nproc):
+        """whole-render correspondence WITHOUT captured intermediates: Cartesian point objects and polar point objects"""
+        per = 60 if ctx.quick else 600
+        jobs = [(name, (ctx.seed, ctx.tier, c), per // 2) for name in G.LAYOUTS for c in range(2)]
+        with multiprocessing.get_context("fork").Pool(min(nproc, len(jobs))) as pool:
+            results = list(pool.imap_unordered(work_concrete, jobs))
+        for res in results:
+            for k, v in res["counts"].items():
+                ctx.count(k, v)
+            if not res["lines"]:
+                continue
+            outs = driver.run(res["lines"])
+            for line, ans, (case, direct, diffuse) in zip(res["lines"], outs, res["expect"]):
+                kind = "cartesian point" if case["cartesian"] else "polar point"
+                feats = "+".join(f for f in G.features(case)[1:] if f in ("div", "zones", "lock", "screenRef", "edgeLock", "offset")) or "plain"
+                if ans == "none" and not case["cartesian"]:
+                    # outside the modelled class (distance < 1 after a lock to a near loudspeaker cannot happen; this
+                    # is a diverged / transformed position closer than 1): counted, not compared
+                    ctx.count("concrete polar point: outside the modelled class (spread branch active)")
+                    continue
+                m = parse_pair(ans)
+                ctx.count("concrete %s:%s" % (kind, res["layout"]))
+                ctx.count("concrete features %s:%s" % (kind, feats))
+                ctx.case(("concrete", line), True)
+                if m is None or not close_vec(m[0], direct, 1e-9) or not close_vec(m[1], diffuse, 1e-9):
+                    ctx.disagree("GainCalc.render vs Earverif.GainCalc.renderConcrete%s (nothing captured)"
+                                 % ("Cart" if case["cartesian"] else "PolarPoint"), case,
+                                 ans if m is None else {"direct": f17(m[0]), "diffuse": f17(m[1])},
+                                 {"direct": f17(direct), "diffuse": f17(diffuse)})
+                else:
+                    ctx.validated()
 
     def _cmp(self, ctx, driver, what, items, tol=TOL):
         """items: list of (line, expected list(s) of floats or 'assert', input description)."""
@@ -977,7 +1110,20 @@ REGISTRY = dict(
     "divergePositions_length (the one-vector-per-diverged-position shape is proved), diverge_cart_in_cube; the polar "
     "handler's distance/depth logic with extent_mod (polarHandle_isPolarRow, amountSpread_range, extentMod_range); the "
     "allo_extent.get_gains skeleton after the per-axis weights (alloExtent_nonneg, alloExtent_unit, "
-    "alloExtent_unit_of_size: unit power for unit point gains and a non-zero size vector). The model is tied to the code on every "
+    "alloExtent_unit_of_size: unit power for unit point gains and a non-zero size vector). Round 5: the handlers and "
+    "panners are plugged in by import of the other checks' models (renderConcreteCart / renderConcretePolarPoint in "
+    "Model/GainCalcConcrete.lean: C13 zone masks, channel lock, scaleAzEl, compensate_position, _speaker_tree; C19 "
+    "Cartesian<->polar conversion; C05 point-source panner over its regenerated table with closed-form quad roots; own "
+    "transliterations of PolarEdges.from_screen and the screen-scale / edge-lock glue). renderConcrete_cart_power(_layouts): "
+    "Cartesian point objects end to end on the ten layouts with NO handler or panner hypothesis (every zone list, lock, "
+    "screenRef, edge lock, offset, divergence: non-negative, LFE zero, power = (gain x object gain)^2 whenever render does "
+    "not raise; uses C13's speakerTree_spec and treeWF_of_TreeS). renderConcrete_polar_point_partial(_layouts): polar "
+    "point objects (zero extent, distance >= 1) on the nine non-stereo layouts; remaining hypotheses: the C05 panner "
+    "returns a result (C05 totality is not proved) that is not the all-zero vector; non-negativity and unit norm of its "
+    "answer are discharged through panner_inherits, the per-region theorems and downmix_nonneg_unit (pspHandle_contract). "
+    "Whole-render correspondence of both WITHOUT captured intermediates (inputs: metadata + layout name; 1e-9). Still "
+    "parameters: the extent weight functions of the polar extent panner (spreading panner values, get_weight_func), "
+    "_calc_f/_calc_w/_calc_g_point_separated of allo_extent, np.roots (closed form assumed). The model is tied to the code on every "
     "run by capturing diverge / extent panner / zone downmix results inside the real GainCalc.render and replaying "
     "them through the Lean model (1e-12 absolute), by replaying the whole pipeline with the recorded handler calls as "
     "oracles (renderFull; a recorded call that is not where the model's pipeline puts it is a disagreement), plus "
